@@ -1,4 +1,5 @@
 import OpacusLean.Lemmas.EngineEffect
+import OpacusLean.Generated.BatchSplit
 import Mathlib.Tactic.Linarith
 import Mathlib.Algebra.Order.Group.Nat
 /-! # C10 — splitting logical batches with BatchMemoryManager changes nothing but memory -/
@@ -344,5 +345,61 @@ theorem modZeroGrad_idempotent (c : Cfg) (s : St) :
     (stepOp c (stepOp c s .modZeroGrad).1 .modZeroGrad).1 = (stepOp c s .modZeroGrad).1 := by
   obtain ⟨gs, summed, pgrad, ls, q, sg, cl, hist, nx, lg⟩ := s
   cases pgrad <;> simp [stepOp]
+
+/-! ## The tie to the source: `BatchSplittingSampler.__iter__`, re-translated on every run (`Generated/BatchSplit.lean`) -/
+
+/-- pairing a list with "is not the last one" flags = all but the last flagged `true`, then the last flagged `false` -/
+theorem zipIdx_flags_eq {β} (l : List β) (last : β) (h : l.getLast? = some last) :
+    l.zipIdx.map (fun p => (p.1, decide (p.2 + 1 < l.length))) =
+      l.dropLast.map (fun c => (c, true)) ++ [(last, false)] := by
+  have hne : l ≠ [] := by intro h0; simp [h0] at h
+  have hpos : 0 < l.length := List.length_pos_iff.mpr hne
+  apply List.ext_getElem
+  · simp; omega
+  · intro i h1 h2
+    simp only [List.length_map, List.length_zipIdx] at h1
+    simp only [List.getElem_map, List.getElem_zipIdx]
+    by_cases hi : i + 1 < l.length
+    · rw [List.getElem_append_left (by simp; omega)]
+      simp [hi]
+    · have hil : i = l.length - 1 := by omega
+      rw [List.getElem_append_right (by simp; omega)]
+      rw [List.getLast?_eq_getElem?] at h
+      have : l[i]? = some last := by rw [hil]; exact h
+      have hli : l[i] = last := by
+        rw [List.getElem?_eq_getElem h1] at this; exact Option.some.inj this
+      simp [hi, hli]
+
+/-- **generated_iter_eq_model**: what `BatchSplittingSampler.__iter__` – as written in the source under test – yields for one
+logical batch (the physical batches in order, each with the skip signal sent right before it) is the model's `splitBatch`,
+for every batch content and every maximum physical size ≥ 1; in particular it never raises (`some`). The partition, bound,
+signal-shape and refinement theorems above are therefore about the source as it stands. -/
+theorem generated_iter_eq_model {α} (batch : List α) (m : Nat) (hm : 0 < m) :
+    Opacus.Generated.BatchSplit.iterOne batch m = some (splitBatch batch m) := by
+  unfold Opacus.Generated.BatchSplit.iterOne splitBatch
+  by_cases h0 : batch.length = 0
+  · simp [h0, Opacus.Generated.BatchSplit.catOpt]
+  · have hk := ceilDiv_pos batch.length m (Nat.pos_of_ne_zero h0) hm
+    have hlen : (takeChunks batch (splitSizes batch.length (ceilDiv batch.length m))).length = ceilDiv batch.length m := by
+      have := congrArg List.length (takeChunks_lengths batch _ (splitSizes_sum batch.length _ hk))
+      simpa [splitSizes_length] using this
+    have hne : takeChunks batch (splitSizes batch.length (ceilDiv batch.length m)) ≠ [] := by
+      intro h; rw [h] at hlen; simp at hlen; omega
+    obtain ⟨last, hlast⟩ : ∃ last, (takeChunks batch (splitSizes batch.length (ceilDiv batch.length m))).getLast? = some last :=
+      ⟨_, List.getLast?_eq_some_getLast hne⟩
+    have hz := zipIdx_flags_eq _ last hlast
+    simp only [h0, if_false, beq_iff_eq, Opacus.Generated.BatchSplit.arraySplit, hlast,
+      Opacus.Generated.BatchSplit.catOpt, Option.map_some, List.append_nil]
+    rw [← hz]
+
+/-- corollaries stated directly on the generated function: partition, bound and signal shape -/
+theorem generated_iter_partition_bounded {α} (batch : List α) (m : Nat) (hm : 0 < m) :
+    ∃ parts, Opacus.Generated.BatchSplit.iterOne batch m = some parts ∧
+      (parts.map (·.1)).flatten = batch ∧ (∀ p ∈ parts, p.1.length ≤ m) ∧
+      parts.map (·.2) = List.replicate (parts.length - 1) true ++ [false] :=
+  ⟨_, generated_iter_eq_model batch m hm, chunks_partition batch m hm, chunks_bounded batch m hm, signals_shape batch m hm⟩
+
+example : Opacus.Generated.BatchSplit.iterOne [10, 11, 12, 13, 14] 2 =
+    some [([10, 11], true), ([12, 13], true), ([14], false)] := by decide
 
 end Opacus.C10
